@@ -51,5 +51,5 @@ package fdo
 //@   callassert SetRVBlob#1: @voucher u(*arg2) == u(sig.To0d.Val.Voucher)
 //@   callassert SetRVBlob#1: @blob u(*arg3) == u(sig.To1d.Sign1)
 //@   callassert SetRVBlob#1: @expiry AddedDur(u(arg4)) == int64(ttl) * 1000000000
-//@   callassert SetRVBlob#1: @policy s.AcceptVoucher != nil ==> ttl != 0
+//@   callassert SetRVBlob#1: @policy s.AcceptVoucher != nil ==> ttl != 0 && u(ttl) == policyttl(ctx)
 //@   ensures @reply ? err == nil ==> result0 != nil && result0.WaitSeconds == ttl
